@@ -22,7 +22,7 @@ pub fn check() -> Check {
         spec: CheckSpec {
             id: "C08",
             level: "exploration",
-            rule: "one case = a generated sequence of 1-5 frames the connection can write (simple strings/errors without CR/LF, integers incl. i64::MIN/MAX, bulk strings of 0..70 KB of arbitrary bytes incl. trailing CR and embedded CRLF, null, flat arrays of those). Oracle: (1) Connection::write_frame into an in-memory sink (which accepts everything, or at most 1 / 7 / 4096 / 10 000 bytes per write call) produces exactly the reference encoding; (2) Connection::read_frame over an in-memory stream that hands out exactly the chosen segments returns the same frames and then a clean None, for the segmentations: all at once, one byte at a time, EVERY two-segment split (exhaustive for encodings up to 300 bytes), and seeded random cuts; (3) Frame::check on every strict prefix of each encoding is Incomplete; (4) a stream that ends inside a frame (every strict non-empty prefix of the last frame for short encodings) makes read_frame return an error after the complete frames, never None and never a shorter frame. One evaluation = one (sequence, segmentation or prefix) run. Non-trivial/distinct = distinct (encoding hash, segmentation) pairs with at least one cut inside a frame.",
+            rule: "one case = a generated sequence of 1-5 frames the connection can write (simple strings/errors without CR/LF, integers incl. i64::MIN/MAX, bulk strings of 0..70 KB of arbitrary bytes incl. trailing CR and embedded CRLF, null, flat arrays of those). Oracle: (1) Connection::write_frame into an in-memory sink (which accepts everything, or at most 1 / 7 / 4096 / 10 000 bytes per write call) produces exactly the reference encoding; (2) Connection::read_frame over an in-memory stream that hands out exactly the chosen segments returns the same frames and then a clean None, for the segmentations: all at once, one byte at a time, EVERY two-segment split (exhaustive for encodings up to 300 bytes), and seeded random cuts (every sixth of these also with one read failing with ErrorKind::Interrupted at a drawn position, after which read_frame is called again and must go on as if nothing had happened); (3) Frame::check on every strict prefix of each encoding is Incomplete; (4) a stream that ends inside a frame (every strict non-empty prefix of the last frame for short encodings) makes read_frame return an error after the complete frames, never None and never a shorter frame. One evaluation = one (sequence, segmentation or prefix) run. Non-trivial/distinct = distinct (encoding hash, segmentation) pairs with at least one cut inside a frame.",
             assumptions: vec!["nested arrays are outside 'frames the connection can write' (write_frame does not implement them)", "the in-memory stream never returns Pending; scheduling is not the subject here"],
             death_is_violation: true,
         },
@@ -46,17 +46,24 @@ pub struct SegStream {
     /// most bytes one write call accepts (0 = everything): a sink may take only a part, the way a
     /// socket with a nearly full send buffer does
     pub write_limit: usize,
+    /// the read with this number (1-based) fails once with ErrorKind::Interrupted and delivers
+    /// nothing; the caller is expected to call read_frame again
+    pub interrupt_read: Option<u64>,
 }
 
 impl SegStream {
     pub fn new(segs: Vec<Vec<u8>>) -> Self {
-        SegStream { segs: segs.into_iter().filter(|s| !s.is_empty()).collect(), written: Arc::new(Mutex::new(Vec::new())), reads: Arc::new(Mutex::new(0)), write_limit: 0 }
+        SegStream { segs: segs.into_iter().filter(|s| !s.is_empty()).collect(), written: Arc::new(Mutex::new(Vec::new())), reads: Arc::new(Mutex::new(0)), write_limit: 0, interrupt_read: None }
     }
 }
 
 impl AsyncRead for SegStream {
     fn poll_read(mut self: Pin<&mut Self>, _cx: &mut Context<'_>, buf: &mut ReadBuf<'_>) -> Poll<std::io::Result<()>> {
         *self.reads.lock().unwrap() += 1;
+        if self.interrupt_read == Some(*self.reads.lock().unwrap()) {
+            self.interrupt_read = None;
+            return Poll::Ready(Err(std::io::Error::new(std::io::ErrorKind::Interrupted, "interrupted-by-harness")));
+        }
         if let Some(mut s) = self.segs.pop_front() {
             let n = s.len().min(buf.remaining());
             buf.put_slice(&s[..n]);
@@ -169,14 +176,27 @@ enum ReadEnd {
 
 /// Read frames until None or error.
 fn read_all(rt: &tokio::runtime::Runtime, segs: Vec<Vec<u8>>) -> Result<(Vec<RFrame>, ReadEnd), String> {
+    read_all_interrupted(rt, segs, None)
+}
+
+/// As read_all; the read numbered `interrupt` fails once with ErrorKind::Interrupted, upon which
+/// read_frame is simply called again (what was received before the failed read must not be lost).
+fn read_all_interrupted(rt: &tokio::runtime::Runtime, segs: Vec<Vec<u8>>, interrupt: Option<u64>) -> Result<(Vec<RFrame>, ReadEnd), String> {
     let res = std::panic::catch_unwind(std::panic::AssertUnwindSafe(|| {
         rt.block_on(async {
-            let mut conn = Connection::new(SegStream::new(segs));
+            let mut st = SegStream::new(segs);
+            st.interrupt_read = interrupt;
+            let mut conn = Connection::new(st);
             let mut got = Vec::new();
+            let mut retried = false;
             loop {
                 match conn.read_frame().await {
                     Ok(Some(f)) => got.push(from_impl(&f)),
                     Ok(None) => return (got, ReadEnd::CleanNone),
+                    Err(e) if !retried && interrupt.is_some() && e.to_string().contains("interrupted-by-harness") => {
+                        retried = true;
+                        continue;
+                    }
                     Err(e) => return (got, ReadEnd::Error(e.to_string())),
                 }
                 if got.len() > 64 {
@@ -308,11 +328,19 @@ fn case(ctx: &Ctx, rt: &tokio::runtime::Runtime, case: u64, out: &mut Out) -> Op
         let keep: Vec<usize> = (0..segmentations.len()).filter(|i| *i < 2 || i % 7 == 3 || *i + 3 > segmentations.len()).collect();
         segmentations = keep.into_iter().map(|i| segmentations[i].clone()).collect();
     }
-    for (name, segs) in segmentations {
+    // every sixth segmentation is also read with one read failing transiently (Interrupted) at a
+    // drawn position, after which read_frame is called again
+    let n_seg_total = segmentations.len();
+    for (si, (name, segs)) in segmentations.into_iter().enumerate() {
         let nseg = segs.len();
         out.evaluations += 1;
         out.count("sequences_read_back", 1);
-        match read_all(rt, segs) {
+        let interrupt = if !light && (si % 6 == 5 || si + 1 == n_seg_total) { Some(r.range(1, nseg as u64 + 1)) } else { None };
+        if interrupt.is_some() {
+            out.count("sequences_read_back_with_one_interrupted_read", 1);
+        }
+        let name = if let Some(i) = interrupt { format!("{} with read #{} interrupted", name, i) } else { name };
+        match read_all_interrupted(rt, segs, interrupt) {
             Err(p) => return Some(Verdict { sig: "read-panic", desc: format!("read_frame panicked under segmentation {}: {}", name, p) }),
             Ok((got, end)) => {
                 if got != frames {
